@@ -2,6 +2,7 @@
 
 Correspondence: real `dali.frame.Frame` vs the Lean model (m_frame), and
 oracle: real code vs the Lean reference list-of-bits (`spec` prefix)."""
+from common import exc_name  # noqa: E402
 import itertools
 from common import Model, tok, outcome
 
@@ -107,7 +108,7 @@ def impl_op(F, bits, data, name, ops):
             raise AssertionError(name)
     except Exception as e:
         changed = "" if (fbits(f) == bits and fdata(f) == data) else " frame-changed"
-        return "err " + type(e).__name__ + changed, f
+        return "err " + exc_name(e) + changed, f
     if not (0 <= fdata(f) < (1 << fbits(f))) or fbits(f) != bits:
         return "ok OUT-OF-RANGE %d %d" % (fbits(f), fdata(f)), f
     return "ok %d %d %s" % (fbits(f), int(fdata(f)), fmt_out(r)), f
@@ -304,7 +305,7 @@ def correspond(ctx, corr):
                     f[a:b] = v
                     ans = "ok %d %d unit" % (fbits(f), int(fdata(f)))
                 except Exception as e:
-                    ans = "err " + type(e).__name__
+                    ans = "err " + exc_name(e)
             else:
                 i = ctx.rng.randrange(w)
                 v = ctx.rng.random() < 0.5
@@ -383,7 +384,7 @@ def correspond(ctx, corr):
                     r = bool(f != ops[0])
                 ans = "ok %d %d %s" % (fbits(f), int(fdata(f)), fmt_out(r))
             except Exception as e:
-                ans = "err " + type(e).__name__ + ("" if (fbits(f), fdata(f)) == before else " frame-changed")
+                ans = "err " + exc_name(e) + ("" if (fbits(f), fdata(f)) == before else " frame-changed")
             line = line_of(name, bits, data, ops, F)
             run.add(line, ans, True)
             hist.append(line)
